@@ -356,3 +356,100 @@ def report_bad(text, m):
             if int(float(t[2])) != int(cnt):
                 add('near-field', 'near-field header axis %d count %s for %d' % (a, t[2], int(cnt)))
     return bad
+
+
+# ---------------------------------------------------------------------------------------------------------------
+# row structure: the real text classified line by line into the row descriptors of Pmn.Model.Report, and the
+# request that makes the Lean model produce the rows for the projected model
+
+def text_rows(text):
+    """row tokens of the part of the report between the geo-object table and the field tables"""
+    import re as _re
+    L = text.split('\n')
+    try:
+        a = next(i for i, l in enumerate(L) if '**** ANTENNA GEOMETRY ****' in l)
+    except StopIteration:
+        return None
+    rows = []
+    sec = 'geo'
+    for l in L[a + 1:]:
+        if l.startswith('*' * 20):
+            if 'SOURCE DATA' in l:
+                sec = 'data'; continue
+            if 'CURRENT DATA' in l:
+                sec = 'cur'; continue
+            break                                    # field tables
+        t = l.split()
+        if not t:
+            continue
+        if sec == 'geo':
+            mm = _re.match(r'^(\S+) NO\.\s+(\d+) COORDINATES', l)
+            if mm:
+                rows.append('GH%s' % mm.group(2)); continue
+            if l.startswith('X  ') or l.startswith('X '):
+                continue
+            if l.startswith('NO. OF SOURCES'):
+                rows.append('SC%d' % int(l.split(':')[1])); sec = 'src'; continue
+            if t[0] == '-':
+                rows.append('GN'); continue
+            rows.append('G%d' % int(t[-1])); continue
+        if sec == 'src':
+            if l.startswith('PULSE NO., VOLTAGE MAGNITUDE'):
+                rows.append('S%d' % int(l.split(':')[1].split(',')[0])); continue
+            if l.startswith('NUMBER OF LOADS'):
+                rows.append('LC%d' % int(l.split('LOADS')[1])); sec = 'load'; continue
+            return rows + ['?' + l[:30]]
+        if sec == 'load':
+            if l.startswith('PULSE NO.,RESISTANCE'):
+                rows.append('LI%d' % int(l.split(':')[1].split(',')[0])); continue
+            if l.startswith('PULSE NO., ORDER'):
+                f = l.split(':')[1].split(',')
+                rows.append('LS%d:%d' % (int(f[0]), int(f[1]))); continue
+            if l.startswith('NUMERATOR'):
+                rows.append('LK%d' % int(l.split('S^')[1].split(':')[0])); continue
+            return rows + ['?' + l[:30]]
+        if sec == 'data':
+            if l.startswith('PULSE'):
+                rows.append('D%d' % int(t[1])); continue
+            continue                                 # CURRENT / IMPEDANCE / POWER lines of the block
+        if sec == 'cur':
+            mm = _re.match(r'^(\S+) NO\.\s+(\d+) :', l)
+            if mm:
+                rows.append('CH%s' % mm.group(2)); continue
+            if t[0] in ('PULSE', 'NO.'):
+                continue
+            if t[0] == 'E':
+                rows.append('CE'); continue
+            if t[0] == 'J':
+                rows.append('CJ'); continue
+            rows.append('C%d' % int(float(t[0]))); continue
+    return rows
+
+
+def model_rows_request(m):
+    toks = ['report rows', len(m.geo)]
+    for g in m.geo:
+        ps = [p.idx for p in g.pulses]
+        toks += [g.tag, len(ps)] + ps
+        toks += [int(bool(g.is_ground[0])), int(bool(g.is_ground[1])), int(bool(g.conn[0])), int(bool(g.conn[1])),
+                 int(g.end_segs[0] is None and g.end_segs[1] is None)]
+    toks.append(''.join('1' if (p.geo[0] is not p.geo[1]) else '0' for p in m.pulses) or '-')
+    toks += [len(m.sources)] + [s.idx for s in m.sources]
+    toks.append(len(m.loads))
+    for l in m.loads:
+        spar = hasattr(l, 'degree') and hasattr(l, 'a')
+        ps = [p.idx for p in l.pulses]
+        toks += [int(spar), int(l.degree) if spar else 0, len(ps)] + ps
+    return toks
+
+
+def structure_tie(d, text, m):
+    """None or a description of the first difference between the real report's rows and the model's"""
+    real = text_rows(text)
+    if real is None:
+        return 'no ANTENNA GEOMETRY heading in the report'
+    model = d.ask(*model_rows_request(m)).split()
+    if real != model:
+        k = next((i for i, (a, b) in enumerate(zip(real, model)) if a != b), min(len(real), len(model)))
+        return 'row %d: report %r, model %r (%d vs %d rows)' % (k, real[k:k + 3], model[k:k + 3], len(real), len(model))
+    return None
